@@ -79,8 +79,19 @@ pub fn compare(expected: &Library, text: &str) -> Result<(), (String, String)> {
 }
 
 fn check_tape(tape: &[u8], gates: &Gates, stats: &mut Stats, counting: bool) -> Result<(), Failure> {
-    let case = build(tape, gates, &SpellOpts::mild(), 4);
+    // mostly the mild layout (blanks only); a quarter of the programs are laid out with comments
+    // (also OSCAT-marker comments and blocks), line breaks, CRLF and re-cased keywords - the
+    // expected library does not depend on the layout (identifier spellings are kept)
+    let opts = if crate::tape::fnv(tape) % 4 == 0 {
+        let mut o = crate::props::c08::opts_for(gates);
+        o.ident_case = false;
+        o
+    } else {
+        SpellOpts::mild()
+    };
+    let case = build(tape, gates, &opts, 4);
     if counting {
+        stats.class(if opts.mild { "layout.mild" } else { "layout.wild" });
         let nontrivial = !case.lib.elements.is_empty() && case.productions >= 3;
         stats.case(nontrivial, hash_str(&case.text));
         stats.absorb_gates(gates);
